@@ -131,6 +131,8 @@ def c07(run):
     r15_closed.check_unchecked_sites(run, raw_only=True)
     # a constructor argument that may be left out (None) is used as a value only where it was found to be given
     r10_args.check_none_belief(run, [f for f in prog.analysed_functions() if f.name == '__init__' and f.module.short not in ('stdlib/collections',)])
+    # an element of another class never enters through the list interface: class equality guards of the mutators (RL b)
+    r_list.run_mutator_guards(run)
     # dual-mode transl / transl2 behind the validating import: reached only with a vector argument
     if r20_shapes.check_dual_mode_calls(run, [f for f in prog.analysed_functions() if f.cls is not None]) < 2:
         run.error('R20: fewer than 2 one-argument transl / transl2 calls in class methods (anchor of the dual-mode rule not found in the current source)')
@@ -363,6 +365,7 @@ def c15(run):
     r10_args.check_none_belief(run, [f for f in prog.analysed_functions() if f.module.short not in ('base/animate', 'timing', 'stdlib/collections', 'base/graphics')])
     r10_args.check_getvector_contract(run)
     r10_args.check_getunit_contract(run)
+    r10_args.check_scalartypes(run)
     r4_predicates.check_isvector(run)
     # the arms of a form split (one vector / a list of vectors, one value / many) forward the same options to the same kernel
     for f in prog.analysed_functions():
@@ -417,6 +420,8 @@ def c16(run):
     r11_symbolic.check_getvector_dtype(run)
     r11_symbolic.check_allocations(run)
     r11_symbolic.check_assumption_free(run)
+    r4_predicates.check_isvector(run)              # a symbolic (object dtype) array is a vector like any other: no element-type test
+    r10_args.check_getvector_contract(run)
     if r11_symbolic.check_vectorize_kernels(run) < 1:
         run.error('R11v: no np.vectorize kernel found (anchor of SMPose.simplify not found in the current source)')
     ms = r11_symbolic.marked(prog)
@@ -507,6 +512,7 @@ def _scope_rules(run, pid, r1=True, r2=True, r9=True, generic=True):
             run.extra['_getvector_done'] = True
             r10_args.check_getvector_contract(run)
             r10_args.check_getunit_contract(run)
+            r10_args.check_scalartypes(run)
             r4_predicates.check_isvector(run)
         for f in fs:
             if f.key not in seen:
@@ -724,6 +730,7 @@ def c06(run):
     r16_tables._dualquat(run)
     r22_dualquat.check_point_route(run)
     r16_tables.check_pair_integrity(run, rule='R22')      # (X*Y)*p goes through UnitDualQuaternion(real, dual): the pair is stored as given
+    r7_binary.check_helper_operand_order(run)             # ... and through quaternion products whose operands stay in order
     # X.inv() * (X * p) == p: the inverse used by the point laws is the structured inverse, element by element
     r16_tables.check_routes(run, [r for r in r16_tables.ROUTES_C02 if r[0] in ('pose3d:SE3.inv', 'pose2d:SE2.inv', 'pose3d:SO3.inv', 'pose2d:SO2.inv')], rule='R15')
     r16_tables.tables_c02_inverse(run) if hasattr(r16_tables, 'tables_c02_inverse') else None
